@@ -310,6 +310,17 @@ def REWIRE(K=0, horizon=6, ops=None):
     return spec(f'REWIRE[K{K}]', devs, horizon, ops, K)
 
 
+def LOOP(K=0, horizon=6, delay=1, cap=4, ops=None):
+    '''A multi-pass store: parts leave the buffer through a gate that sends them straight back into the SAME buffer
+    until they have been through it twice (zero-time loop: the part re-enters inside the buffer's own hand-over).'''
+    b = buf('B', ['S', 'Gagain'], cap, delay)
+    b['up_init'] = ['S']
+    devs = [src('S', 1, budget=3), b, gate('Gagain', ['B'], 'again'), gate('Gdone', ['B'], 'done'), sink('K', ['Gdone'], 0.5)]
+    if ops is None:
+        ops = [('block', 'K', True), ('block', 'K', False)]
+    return spec(f'LOOP[d{delay},cap{cap},K{K}]', devs, horizon, ops, K)
+
+
 def REWIRE2(K=0, horizon=6, ops=None):
     '''Re-wiring by editing the list the `upstream` getter returned: a consumer drops one of its two feeders, gets it
     back, a second consumer is attached to a feeder that is blocked at that moment.'''
